@@ -749,8 +749,8 @@ func Verify(dir string, fs vfs.FS) error {
 			}
 			return fmt.Errorf("manifest: read length at %d: %w", pos, err)
 		}
-		payload := make([]byte, length)
-		if _, err := io.ReadFull(reader, payload); err != nil {
+		payload, err := readPayload(reader, length)
+		if err != nil {
 			if err == io.EOF || err == io.ErrUnexpectedEOF {
 				return f.Truncate(pos)
 			}
